@@ -26,13 +26,13 @@ PROPS = {
     "C04": {
         "title": "Everything runs exactly once and a completed run is quiescent",
         "lean": ["TopsimProps.SysSafety", "TopsimProps.C04", "TopsimProps.C19", "TopsimProofs.Bridge.Queries"],
-        "streams": [("default", 32, 500), ("adversary", 24, 400), ("chaotic", 16, 300), ("edge", 16, 300)],
+        "streams": [("default", 32, 500), ("adversary", 24, 400), ("chaotic", 16, 300), ("edge", 16, 300), ("hotwait", 12, 200)],
         "monitor": ["C04"],
     },
     "C05": {
         "title": "Every feasible configuration terminates",
         "lean": ["TopsimProps.C05", "TopsimProofs.Bridge.Admission", "TopsimProofs.Bridge.BufferArith", "TopsimProofs.Bridge.Sched"],
-        "streams": [("feasible", 40, 800), ("tiering", 16, 200), ("samestep", 12, 150), ("edge", 32, 600)],
+        "streams": [("feasible", 40, 800), ("tiering", 16, 200), ("samestep", 12, 150), ("edge", 32, 600), ("hotwait", 12, 200)],
         "monitor": ["C05"],
     },
     "C06": {
@@ -51,7 +51,7 @@ PROPS = {
     "C08": {
         "title": "Observations start only when all resources are free, and on time when idle",
         "lean": ["TopsimProps.C08", "TopsimProofs.Bridge.Admission", "TopsimProofs.Bridge.Sched"],
-        "streams": [("default", 40, 600), ("contended", 16, 300), ("idlestart", 12, 150), ("edge", 32, 600)],
+        "streams": [("default", 40, 600), ("contended", 16, 300), ("idlestart", 12, 150), ("edge", 32, 600), ("hotwait", 12, 200)],
         "monitor": ["C08"],
     },
     "C09": {
